@@ -623,8 +623,12 @@ func runRacePass(r *ev.Run) map[string]interface{} {
 	}
 	total := 0
 	reports := 0
-	for _, procs := range []string{"1", "2", "4", "16"} {
-		cmd := osexec.Command(bin, "-racepass", "8")
+	plist, n := []string{"1", "2", "4", "16"}, "8"
+	if !r.Thorough() {
+		plist, n = []string{"4"}, "2" // quick: one light pass (~15 s)
+	}
+	for _, procs := range plist {
+		cmd := osexec.Command(bin, "-racepass", n)
 		cmd.Env = append(os.Environ(), "GOMAXPROCS="+procs, "GORACE=halt_on_error=0 exitcode=0")
 		var out, errb bytes.Buffer
 		cmd.Stdout, cmd.Stderr = &out, &errb
@@ -656,7 +660,7 @@ func runRacePass(r *ev.Run) map[string]interface{} {
 			r.Violate(sig, "data race reported by the Go race detector:\n"+tailHead(blk, 2500), map[string]interface{}{"report": tailHead(blk, 6000), "gomaxprocs": procs})
 		}
 	}
-	return map[string]interface{}{"free_running_runs": total, "race_reports": reports, "gomaxprocs": []int{1, 2, 4, 16},
+	return map[string]interface{}{"free_running_runs": total, "race_reports": reports, "gomaxprocs": plist,
 		"note": "dynamic happens-before race detection over sampled schedules (auxiliary; not exhaustive)"}
 }
 
@@ -760,14 +764,12 @@ func main() {
 	}
 	r.Assume = append(r.Assume,
 		"vsched: explored code is data-race free apart from what the separate race pass reports; all blocking interactions go through instrumented constructs; 64-bit history hashes do not collide",
-		"data races are looked for by a separate free-running -race pass (thorough tier), which samples schedules")
+		"data races are looked for by a separate free-running -race pass (light in the quick tier, 4 GOMAXPROCS values x 8 rounds in the thorough tier), which samples schedules")
 	if sum.Machinery > 0 {
 		r.NotExhaustive(fmt.Sprintf("%d plans hit a machinery error (see stderr)", sum.Machinery))
 	}
-	if r.Thorough() {
-		if rp := runRacePass(r); rp != nil {
-			cov["race_pass"] = rp
-		}
+	if rp := runRacePass(r); rp != nil {
+		cov["race_pass"] = rp
 	}
 	r.Finish(cov)
 }
